@@ -92,8 +92,14 @@ Definition c04_side (c : ctx) : bool :=
   | _ => true
   end.
 
+(** C04's "a mockable one for [Impl<T>] (and the mock type)": where the impl is restricted to [Impl<T>] the mock
+    derivations that give the mock types their implementation are on the trait, and only there — C10's predicate
+    on fn / mod inputs *)
+Definition view_C10_fnmod (c : ctx) (items : list item) : view :=
+  match x_input c with InFn _ _ _ | InMod _ _ _ _ _ => view_C10 c items | _ => na end.
+
 Definition view_C04g (c : ctx) (items : list item) : view :=
-  if c04_side c then view_C04 c items else na.
+  view_and (if c04_side c then view_C04 c items else na) (view_C10_fnmod c items).
 
 (** ** C14: the user's own identifiers and tokens that end up in the scanned regions do not mention [dyn] / [Box] *)
 Definition NB : list string := ["dyn"; "Box"].
